@@ -12,7 +12,8 @@ K3  property oracle on the real packages: retained sets = the closure the proper
      every package imports with all models complete; every operation, driven with the same arguments and the
      same scripted response plans, sends the same request and returns the same result as in the unpruned
      package.
-F25 stream: the same with enable_custom_operations (custom_queries.py imports pruned types).
+custom_ops stream: the same with enable_custom_operations; the builder modules' own imports are the builder
+     roots of the model (former finding F25, fixed in /repo c0f9ed8: a failure here is a VIOLATION again).
 """
 from __future__ import annotations
 
@@ -81,7 +82,7 @@ def k1a(ctx):
         order = list(an_graph)
         ins = [[nm, an_graph[nm][0], an_graph[nm][1], "class " + nm] for nm in order]
         ens = [[e, "enum " + e] for e, t in schema.type_map.items() if e.startswith("E") and len(e) == 2]
-        cmds.append([Sym("generate"), ins, ens, roots, [], [], [], False, False])
+        cmds.append([Sym("generate"), ins, ens, roots, [], [], [], False, False, False, [], []])
         graph_sx = [[nm, an_graph[nm][0]] for nm in order]
         t = roots[0] if roots else order[0]
         cmds.append([Sym("deps"), graph_sx, t])
@@ -152,7 +153,9 @@ def model_cmds(an, unpruned_files):
         deps, enums = an.graph.get(name, ([], []))
         ins.append([name, deps, enums, text])
     ens = [[n, t] for n, t in en_cls]
-    return [[Sym("generate"), ins, ens, an.arg_inputs, an.arg_enums, an.res_enums, an.frag_enums, fi, fe]
+    custom = bool(getattr(an, "custom", False))
+    return [[Sym("generate"), ins, ens, an.arg_inputs, an.arg_enums, an.res_enums, an.frag_enums, fi, fe,
+             custom, getattr(an, "builder_inputs", []), getattr(an, "builder_enums", [])]
             for fi, fe in FLAGS], ins_cls, en_cls
 
 
@@ -316,8 +319,7 @@ def run_stream(ctx, scs, stream, extra_cfg=None, n_plans=2):
             if stream == "custom_ops":
                 # the builder modules' own imports are part of what is needed
                 bi, be = prune_inputs.builder_imports(gens[0].files(), set(an.graph), set(an.enum_names))
-                an.arg_inputs = an.arg_inputs + bi
-                an.arg_enums = an.arg_enums + be
+                an.custom, an.builder_inputs, an.builder_enums = True, bi, be
                 run.dist("custom_ops_builder_imports", f"inputs={len(bi)},enums={len(be)}")
             c, ins_cls, en_cls = model_cmds(an, gens[0].files())
             cmds += c
@@ -374,6 +376,13 @@ def run(ctx):
             cust.append(prune_scen.make(base + 70000 + i))
         except RuntimeError:
             pass
+    # regression case of the former finding F25 (fixed in /repo c0f9ed8); runs first in its stream
+    cust.insert(0, scenario.Scenario(
+        seed=-25, features=("prune",),
+        sdl="enum Color { RED GREEN }\ninput InA { x: Int }\ntype Obj { id: ID! }\n"
+            "type Query { obj(a: InA, c: Color): Obj plain: Int }\n",
+        queries="query Plain { plain }\n", config={},
+        notes={"shape": "f25-regression", "routes": {}, "ops_with_variables": 0, "n_inputs": 1}))
     n3 = run_stream(ctx, cust, "custom_ops", extra_cfg={"enable_custom_operations": True}, n_plans=1)
     run.extra["scenarios"] = {"prune": n1, "main": n2, "custom_ops": n3}
     run.exhaustive = False
